@@ -11,11 +11,31 @@ pub mod replay;
 pub mod report;
 pub mod ribbon;
 pub mod rng;
+pub mod twins;
 
 use report::{Ctx, Report, Violation};
 
 /// run the full workload of one property
 pub fn run_property(ctx: &Ctx, prop: &str) -> Result<Report, String> {
+    let mut rep = run_property_main(ctx, prop)?;
+    // observation transparency (getters are pure): twins read after every call vs at sparse checkpoints
+    let t0 = std::time::Instant::now();
+    let extra = match prop {
+        "C04" | "C06" | "C18" => Some(("twins.midi_getters_are_pure", twins::midi_transparency(ctx, prop))),
+        "C15" | "C16" => Some(("twins.ribbon_getters_are_pure", twins::ribbon_transparency(ctx, prop))),
+        "C01" => Some(("twins.adsr_value_is_pure", twins::adsr_transparency(ctx, prop))),
+        "C10" => Some(("twins.lfo_get_is_pure", twins::lfo_transparency(ctx, prop))),
+        _ => None,
+    };
+    if let Some((name, r)) = extra {
+        let ev = r.evaluations;
+        rep.merge(r);
+        rep.stages.push((name.to_string(), t0.elapsed().as_secs_f64(), ev));
+    }
+    Ok(rep)
+}
+
+fn run_property_main(ctx: &Ctx, prop: &str) -> Result<Report, String> {
     match prop {
         "C01" | "C02" | "C03" => Ok(adsr::run(ctx, prop)),
         "C04" | "C05" | "C06" | "C18" => Ok(midi::run(ctx, prop)),
@@ -40,6 +60,10 @@ pub fn replay_property(prop: &str, text: &str, rep: &mut Report) -> Result<Optio
         return c20::replay(&t, rep);
     }
     match module.as_str() {
+        "twin-midi" => twins::midi_replay(&t, prop, rep),
+        "twin-ribbon" => twins::ribbon_replay(&t, prop, rep),
+        "twin-adsr" => twins::adsr_replay(&t, prop, rep),
+        "twin-lfo" => twins::lfo_replay(&t, prop, rep),
         "lfo" => lfo::replay(&t, prop, rep),
         "adsr" => adsr::replay(&t, prop, rep),
         "midi" => midi::replay(&t, prop, rep),
